@@ -1074,12 +1074,43 @@ class FuncCanon(object):
                             n.test = ft
                             self.bump("CONSTIF")
                             return True
-            for n in list(ast.walk(st)) if not isinstance(st, (ast.If, ast.While, ast.For, ast.AsyncFor, ast.With, ast.AsyncWith, ast.Try, ast.FunctionDef, ast.AsyncFunctionDef, ast.ClassDef)) else []:
+            if isinstance(st, (ast.If, ast.While)):
+                hdr = list(ast.walk(st.test))
+            elif isinstance(st, (ast.For, ast.AsyncFor)):
+                hdr = list(ast.walk(st.iter))
+            elif isinstance(st, (ast.With, ast.AsyncWith, ast.Try, ast.FunctionDef, ast.AsyncFunctionDef, ast.ClassDef)):
+                hdr = []
+            else:
+                hdr = list(ast.walk(st))
+            for n in hdr:
                 # `a if True else b` -> a   (anywhere in a simple statement: only one arm is ever evaluated)
                 if isinstance(n, ast.IfExp) and isinstance(n.test, ast.Constant):
                     _replace_node(st, n, n.body if n.test.value else n.orelse)
                     self.bump("CONSTIF")
                     return True
+                # `x == a or x == b` -> `x in (a, b)`;  `x != a and x != b` -> `x not in (a, b)`   (x a plain name: reading it twice or once is the same)
+                if isinstance(n, ast.BoolOp):
+                    want = ast.Eq if isinstance(n.op, ast.Or) else ast.NotEq
+                    vals = n.values
+                    for j in range(len(vals) - 1):
+                        a_, b_ = vals[j], vals[j + 1]
+                        if all(isinstance(x, ast.Compare) and len(x.ops) == 1 and isinstance(x.ops[0], want) and isinstance(x.left, ast.Name) for x in (a_, b_)) \
+                                and a_.left.id == b_.left.id and not _has_effect(a_.comparators[0]) and not _has_effect(b_.comparators[0]):
+                            k2 = j + 2
+                            items = [a_.comparators[0], b_.comparators[0]]
+                            while k2 < len(vals) and isinstance(vals[k2], ast.Compare) and len(vals[k2].ops) == 1 and isinstance(vals[k2].ops[0], want) \
+                                    and isinstance(vals[k2].left, ast.Name) and vals[k2].left.id == a_.left.id and not _has_effect(vals[k2].comparators[0]):
+                                items.append(vals[k2].comparators[0])
+                                k2 += 1
+                            new = ast.Compare(left=a_.left, ops=[ast.In() if want is ast.Eq else ast.NotIn()], comparators=[ast.Tuple(elts=items, ctx=ast.Load())])
+                            ast.copy_location(new, a_)
+                            ast.fix_missing_locations(new)
+                            if len(vals) == k2 - j:
+                                _replace_node(st, n, new)
+                            else:
+                                n.values = vals[:j] + [new] + vals[k2:]
+                            self.bump("EQIN")
+                            return True
                 # f(x for x in it) -> f(it) for consumers that only iterate their argument
                 if isinstance(n, ast.Call) and len(n.args) == 1 and not n.keywords and isinstance(n.args[0], ast.GeneratorExp) and len(n.args[0].generators) == 1 \
                         and not n.args[0].generators[0].ifs and not n.args[0].generators[0].is_async and isinstance(n.args[0].elt, ast.Name) \
@@ -2560,6 +2591,17 @@ class Inliner(object):
             if f.id in _params(caller):
                 return None
             return h, False
+        if isinstance(f, ast.Attribute) and isinstance(f.value, ast.Attribute) and isinstance(f.value.value, ast.Name) and f.attr in FOREIGN and cls is not None:
+            # a method of another package class, called on `self.X` where X is bound by the constructor only (the same object throughout)
+            cps = _params(caller)
+            cdef = next((st for st in self.tree.body if isinstance(st, ast.ClassDef) and st.name == cls), None)
+            if cps and f.value.value.id == cps[0] and cdef is not None and f.value.attr in _stable_attrs(cdef) and caller.name != "__init__" \
+                    and not any(isinstance(n, ast.Name) and n.id == cps[0] and isinstance(n.ctx, ast.Store) for n, _ in _fn_nodes(caller)):
+                h = FOREIGN[f.attr]
+                home, needs = getattr(h, "_sa_home", (None, frozenset()))
+                if self._inlinable_def(h) and (home == self.modname or self._bindings_available(home, needs)):
+                    return h, True
+            return None
         if isinstance(f, ast.Attribute) and isinstance(f.value, ast.Name) and f.attr in FOREIGN and (cls, f.attr) not in cands:
             # a method of another package class, called on a local object that this function never rebinds
             r = f.value.id
@@ -2784,10 +2826,9 @@ class Inliner(object):
                     stored_params.add(n.id)
         direct = {}
         if recv:
-            rname = call.func.value.id
             if hp[0] in stored_params:
                 raise Bail("receiver reassigned")
-            direct[hp[0]] = ast.Name(id=rname, ctx=ast.Load())
+            direct[hp[0]] = copy.deepcopy(call.func.value)        # a name, or `self.X` for a constructor-bound attribute
         fresh = []
         for p in ps:
             a = b[p]
@@ -3280,6 +3321,27 @@ def _marker_well_behaved(tree, S):
     return True
 
 
+def _stable_attrs(cls):
+    """attributes of self that are (re)bound in __init__ only (and the class has an __init__)"""
+    bound, elsewhere = set(), set()
+    has_init = False
+    for m in cls.body:
+        if isinstance(m, (ast.FunctionDef, ast.AsyncFunctionDef)) and m.args.args:
+            selfn = m.args.args[0].arg
+            if m.name == "__init__":
+                has_init = True
+            for n in ast.walk(m):
+                if isinstance(n, ast.Attribute) and isinstance(n.ctx, (ast.Store, ast.Del)) and isinstance(n.value, ast.Name) and n.value.id == selfn:
+                    (bound if m.name == "__init__" else elsewhere).add(n.attr)
+                if isinstance(n, ast.Call) and isinstance(n.func, ast.Name) and n.func.id in ("setattr", "delattr", "vars"):
+                    elsewhere.add("*")
+                if isinstance(n, ast.Attribute) and n.attr == "__dict__":
+                    elsewhere.add("*")
+    if not has_init or "*" in elsewhere or len(cls.bases) > 1:
+        return set()
+    return bound - elsewhere
+
+
 def _module_tables(tree, stats):
     """Module level: `T = {}` ; `for k in IT: T[k] = E`  ->  `T = {k: E for k in IT}`   (E does not read T; a following `del k` goes too) and
     `L = []` ; `for k in IT: L.append(E)`  ->  `L = [E for k in IT]`: constant tables built by a loop are the same tables."""
@@ -3355,6 +3417,9 @@ def canonicalise(tree, modname, known, stats=None, log=None):
         return {a: next(iter(cs)) for a, cs in seen.items() if len(cs) == 1 and None not in cs}
 
     def stable_attrs(cls):
+        return _stable_attrs(cls)
+
+    def _unused_sa(cls):
         """attributes of self that are (re)bound in __init__ only (and the class has an __init__)"""
         bound, elsewhere = set(), set()
         has_init = False
